@@ -56,4 +56,14 @@ Finish(acc) ==
   IF acc.pend = <<>> THEN acc.ck
   ELSE AddWord(acc.ck, [i \in 1 .. 4 |-> ByteAt(acc.pend, i)])
 
+\* ------------------------------------------------ readers that fail
+\* The underlying reader may FAIL at any read.  The call then reports the error
+\* (res = "err") or - a transient failure it chose to retry - still the
+\* checksum of the WHOLE content; the sum of the chunks fed before the failure
+\* (PrefixResult) is never an acceptable answer unless it happens to equal Sum.
+Contract(bytes, res) == res = "err" \/ res = Sum(bytes)
+PrefixResult(chunksFed) ==
+  LET f[i \in 0 .. Len(chunksFed)] == IF i = 0 THEN AccInit ELSE Feed(f[i - 1], chunksFed[i])
+  IN  Finish(f[Len(chunksFed)])
+
 =============================================================================
